@@ -269,6 +269,8 @@ def _do_inline(fj, b, i, e, call, hj):
         nb = {"id": idmap[bb["id"]], "elems": [], "succs": []}
         if bb.get("noreturn"):
             nb["noreturn"] = True
+        if bb.get("label") is not None:
+            nb["label"] = bb["label"]       # case labels carry the value the switch compares with
         returned = False
         for el in bb.get("elems", []):
             el = ren(el)
